@@ -1374,6 +1374,30 @@ def r518(rep: Report, ctx: Ctx) -> None:
     rep.rule("R5.18", "diagram nodes: creation, registration, the activity "
              "line, loop body framing, dummy start / end removal", 15)
     check_table(rep, ctx, "R5.18", PUML_TABLE, list(PUML_TABLE))
+    # an operator node writes EVERY keyword line of its table entry (the
+    # indentation in front of it is layout, not content)
+    from .effspec import effects as _effects
+    fo = ctx.func("PUMLOperatorNode.write_uml_blocks")
+    KW = "each(enumerate(OPERATOR_NODE_PUML_MAP[P:self.operator_type.value]" \
+         "[0]))[1]"
+    aps = [e for e in _effects(ctx, fo) if e.kind == "call" and e.name ==
+           "append" and e.recv == "[]"]
+    okw = len(aps) == 1 and len(aps[0].args) == 1 and aps[0].args[0].endswith(
+        "{" + KW + "}'") and not aps[0].guards
+    rep.ob("R5.18", "PUMLOperatorNode.write_uml_blocks: every keyword line of "
+           "the operator's table entry is written, unconditionally", okw,
+           fi=fo, node=aps[0].node if aps else fo.node,
+           detail="; ".join(e.show()[:200] for e in aps) or "no line is "
+           "appended")
+    rets = [e for e in _effects(ctx, fo) if e.kind == "bind"]
+    okr = any(e.name == "ret[0]" and e.args == ("[]",) for e in rets) and any(
+        e.name == "ret[1]" and e.args == (
+            "OPERATOR_NODE_PUML_MAP[P:self.operator_type.value][1]",)
+        for e in rets)
+    rep.ob("R5.18", "PUMLOperatorNode.write_uml_blocks: hands back the lines "
+           "it wrote and the indentation change of its table entry", okr,
+           fi=fo, node=fo.node,
+           detail="; ".join(e.show()[:120] for e in rets))
     # the linearisation starts at the FIRST node in topological order (for
     # ties: the node created first).  After the dummy end is removed a body
     # can have a second source (a trailing kill node); starting there emits
